@@ -3,6 +3,7 @@ package gen
 import (
 	"math/rand"
 	"strconv"
+	"strings"
 )
 
 // ExprGen generates typed random expression trees for the expression checks.
@@ -35,7 +36,9 @@ const (
 )
 
 var numLits = []string{"0", "1", "2", "3", "4", "5", "7", "10", "12", "0.5", "1.5", "2.25", "0.75", "100"}
-var strLits = []string{"a", "b", "bc", "Hello", "x y", "", "12", "3", "abc", "é", "A-1", "z"}
+var strLits = []string{"a", "b", "bc", "Hello", "x y", "", "12", "3", "abc", "é", "A-1", "z",
+	// what a tokeniser looking for the end of a string or of an interpolation must not trip over
+	"q\"t", "\"", "}", "it's", "#{", "{{ }}", "%}"}
 var patLits = []string{"^a", "b", "^[a-z]+$", "[0-9]", "c$", "^$", "l+"}
 
 func (g *ExprGen) pick(xs []string) string { return xs[g.R.Intn(len(xs))] }
@@ -159,10 +162,12 @@ func (g *ExprGen) Gen(t Type, depth int) Expr {
 			g.inInterp--
 			// a string literal inside #{ } is an expression like any other, also the empty one, also when the
 			// string consists of nothing else
-			if x, ok := a.(*EStr); ok && r.Intn(2) == 0 {
+			// (an EStr among the parts is literal text of the string: only for text that can stand there unquoted)
+			raw := func(t string) bool { return !strings.Contains(t, "\"") && !strings.Contains(t, "#{") }
+			if x, ok := a.(*EStr); ok && (r.Intn(2) == 0 || !raw(x.S)) {
 				a = &EStrExpr{x.S}
 			}
-			if x, ok := b.(*EStr); ok && r.Intn(2) == 0 {
+			if x, ok := b.(*EStr); ok && (r.Intn(2) == 0 || !raw(x.S)) {
 				b = &EStrExpr{x.S}
 			}
 			switch r.Intn(8) {
@@ -315,6 +320,10 @@ func (g *ExprGen) Gen(t Type, depth int) Expr {
 }
 
 func (g *ExprGen) hashKey(k string) Expr {
+	if g.cb() && g.R.Intn(4) == 0 {
+		// a key computed by a callback: it is called before whatever the value calls
+		return &EGroup{&ECall{"ident", []Expr{&EStr{k}}}}
+	}
 	switch g.R.Intn(3) {
 	case 0:
 		return &EName{k}
